@@ -387,11 +387,20 @@ impl<'a, R: Clone> AsyncGlobalCache<'a, R> {
 
             // Expired - remove and continue
             drop(entry_ref);
-            self.cache.remove(key);
 
-            // Also remove from order queue to prevent orphaned keys
+            // Remove from map and order queue under the queue lock (which every insert holds),
+            // and only if the entry is still the expired one: a concurrent insert may have
+            // replaced it meanwhile, and dropping its queue position would leave a stored key
+            // that can never be evicted
             let mut order = self.order.lock();
-            order.retain(|k| k != key);
+            let ttl = self.ttl;
+            let removed = self.cache.remove_if(key, |_, v| match ttl {
+                Some(ttl) => now.saturating_sub(v.1) >= ttl,
+                None => false,
+            });
+            if removed.is_some() {
+                order.retain(|k| k != key);
+            }
         }
 
         // Record cache miss
